@@ -108,3 +108,6 @@ Lemma rd_enc2 v rest : v < 65536 -> rd 2 (enc_be 2 v ++ rest) = Ok (v, rest).
 Proof. intros H. apply rd_enc. exact H. Qed.
 Lemma rd_enc4 v rest : v < 4294967296 -> rd 4 (enc_be 4 v ++ rest) = Ok (v, rest).
 Proof. intros H. apply rd_enc. exact H. Qed.
+
+Lemma next_app (x rest : bytes) n : length x = n -> next n (x ++ rest) = (x, rest).
+Proof. intros <-. unfold next. rewrite firstn_exact, skipn_exact. reflexivity. Qed.
